@@ -202,8 +202,10 @@ def run(rep, tier, seed, replay=None):
     for dv in first.divergences:
         failing.setdefault(dv[0].split(" ", 1)[0], ([], []))[1].append(dv)
     raw_of = {httpplan.split_tags(r)[0].split(" ", 1)[0]: r for r in http_lines}
+    budget = [10]   # cases measured again (a change that breaks many cases is not noise: the rest is reported as measured)
     for cid, (fs, dvs) in failing.items():
-        if cid in raw_of and replay is None:
+        if cid in raw_of and replay is None and budget[0] > 0:
+            budget[0] -= 1
             for attempt in range(2):
                 again = _Collect(False)
                 for o in httpplan.run(again, [raw_of[cid]], "c12hpagain"):
@@ -279,11 +281,13 @@ def run(rep, tier, seed, replay=None):
 
     # every case is judged; a real-socket case that fails is MEASURED AGAIN on its own, up to twice: a wait that is too long or
     # a reply that came after the timeout because this machine was busy does not repeat, a query that waits longer than it may does
+    budget2 = [12]
     for c in cases:
         cid = c.split(" ", 1)[0]
         m, i = model.get(cid, "<none>"), impl.get(cid, "<none>")
         divs, fails = judge(c, m, i, panics.get(cid, ""), True)
-        if (divs or fails) and c.split(" ")[1].startswith("real") and replay is None:
+        if (divs or fails) and c.split(" ")[1].startswith("real") and replay is None and budget2[0] > 0:
+            budget2[0] -= 1
             for attempt in range(2):
                 io, pa = vlib.run_impl([c], tag="c12again")
                 d2, f2 = judge(c, m, io.get(cid, "<none>"), pa.get(cid, ""), False)
